@@ -1169,6 +1169,17 @@ func (vc *VC) valEq(l, r Val, lt, rt types.Type) Term {
 		}
 	}
 	if a.Sort != b.Sort {
+		// comparison of an interface with the nil literal
+		if a.Sort == SIface && b.S == "0" {
+			if bt, ok := rt.(*types.Basic); ok && bt.Kind() == types.UntypedNil {
+				return Eq(ITag(a), IntLit(0))
+			}
+		}
+		if b.Sort == SIface && a.S == "0" {
+			if bt, ok := lt.(*types.Basic); ok && bt.Kind() == types.UntypedNil {
+				return Eq(ITag(b), IntLit(0))
+			}
+		}
 		// interface vs concrete
 		if a.Sort == SIface {
 			return Eq(a, vc.toIface(nil, b, rt))
@@ -1416,7 +1427,6 @@ func (vc *VC) makeSlice(st *State, elem types.Type, n, c Term, pos token.Pos) Te
 
 var _ = strings.HasPrefix
 
-
 // boxArray moves a local fixed-size array variable into the heap the first time it is sliced, so
 // that slices of it alias the variable. It returns the identity of the backing array.
 func (vc *VC) boxArray(fr *frame, st *State, e ast.Expr, at *types.Array) (Term, bool) {
@@ -1452,7 +1462,6 @@ func (vc *VC) boxArray(fr *frame, st *State, e ast.Expr, at *types.Array) (Term,
 	st.vars[o] = Term{base.S, SBox}
 	return base, true
 }
-
 
 // elemPtrOf evaluates e when it is a call returning a pointer to a struct and the callee yields a pointer to
 // a slice element (an *ElemPtr value), e.g. s.top() with top returning &s.data[len(s.data)-1].
